@@ -58,11 +58,13 @@ def plan(tier):
 
 def class_kw_value(rng, gen, key):
     if key == "default":
-        return rng.choice([{}, {"a": 1}, {"zz": "x"}, 5])
+        return rng.choice([{}, {"a": 1}, {"zz": "x"}, 5, {"a": True}, {"a": 1.0}])
     if key == "const":
-        return rng.choice([{}, {"a": 1}, {"a": "x", "b": 2}])
+        # (lookalikes on purpose: a child may override {"a": 1} by {"a": true} - equal in Python, not in JSON)
+        return rng.choice([{}, {"a": 1}, {"a": "x", "b": 2}, {"a": True}, {"a": 1.0}, {"a": 0}, {"a": False}])
     if key == "enum":
-        return rng.choice([[{}, {"a": 1}], [{"a": "x"}, {"b": 1}, {}]])
+        return rng.choice([[{}, {"a": 1}], [{"a": "x"}, {"b": 1}, {}], [{}, {"a": True}], [{"a": 1}], [{"a": True}],
+                           [{"a": 0}, {}], [{"a": False}, {}]])
     if key == "required":
         return rng.sample(["a", "b", "zz", "class", "foo"], k=rng.randint(1, 2))
     if key == "minProperties":
@@ -166,6 +168,36 @@ def eff_spec(chain, eff, level):
     kw, props = eff[level]
     return {"t": "Object", "name": chain[level]["name"], "kw": copy.deepcopy(kw),
             "props": copy.deepcopy(props), "base": None, "id": 5000 + level}
+
+
+def python_image(ctx, sut, fpm, child, ancestors, values, case):
+    """`serialize_python(child)` declares `class Child(Parent, ...)`: executed next to the real ancestors
+    it must give a class that validates and serializes like the child itself."""
+    try:
+        text = sut.serialize_python(child)
+        namespace = {anc.__name__: anc for anc in ancestors}
+        exec(compile(text, "<generated>", "exec"), namespace)  # pylint: disable=exec-used
+        rebuilt = namespace[child.__name__]
+    except Exception as exc:  # pylint: disable=broad-except
+        ctx.count("python_image.unusable." + type(exc).__name__)
+        return
+    ctx.count("python_image.executed")
+    for value in values:
+        out_c, res_c, _ = sut.call(child, copy.deepcopy(value))
+        out_r, res_r, exc_r = sut.call(rebuilt, copy.deepcopy(value))
+        if sut.accepted(out_c) != sut.accepted(out_r) or (
+                out_c == "ok" and fpm.fp_result(res_c) != fpm.fp_result(res_r)):
+            ctx.witness("python_image_differs", {**case, "value": value},
+                        f"child -> {out_c}, class rebuilt from its generated Python -> {out_r} ({exc_r!r})"[:400])
+            return
+    try:
+        json_c = normalise_json(sut.serialize_json(child))
+        json_r = normalise_json(sut.serialize_json(rebuilt))
+    except Exception:  # pylint: disable=broad-except
+        return
+    if not refmodel.json_eq(json_c, json_r):
+        ctx.witness("python_image_differs", case,
+                    f"JSON of the rebuilt class differs: {str(json_r)[:250]} vs {str(json_c)[:250]}")
 
 
 def run_family(ctx, sut, monitors, fpm, rng, chain):
@@ -275,6 +307,17 @@ def run_family(ctx, sut, monitors, fpm, rng, chain):
                         if not isinstance(res_c, anc):
                             ctx.witness("not_instance_of_parent", {**case, "level": level, "value": value},
                                         f"instance of L{level} is not an instance of {anc.__name__}")
+                            continue
+                        # ... and is therefore usable wherever the parent is expected: as the value of the
+                        # parent itself, and as a member of an array of parents
+                        held = fpm.fp_result(res_c)
+                        out_p, res_p, exc_p = sut.call(anc, res_c)
+                        out_a, _res_a, exc_a = sut.call(sut.Array(anc), [res_c])
+                        ctx.count("instance_where_parent_expected")
+                        if out_p != "ok" or res_p is not res_c or out_a != "ok" or fpm.fp_result(res_c) != held:
+                            ctx.witness("child_instance_refused_by_parent", {**case, "level": level, "value": value},
+                                        f"{anc.__name__}(instance of L{level}) -> {out_p} {exc_p!r}; "
+                                        f"Array({anc.__name__})([instance]) -> {out_a} {exc_a!r}"[:400])
         try:
             json_c = normalise_json(sut.serialize_json(child))
             json_f = normalise_json(sut.serialize_json(flat))
@@ -284,6 +327,10 @@ def run_family(ctx, sut, monitors, fpm, rng, chain):
                             f"serialize_json(child) != serialize_json(flat): {str(json_c)[:300]} vs {str(json_f)[:300]}")
         except Exception as exc:  # pylint: disable=broad-except
             ctx.count("serialize_failed." + type(exc).__name__)
+        if not history:
+            # (executing `class Child(Parent)` derives from the parent AS IT IS NOW: comparable with the child
+            # only when no ancestor was reconfigured after the child had been defined)
+            python_image(ctx, sut, fpm, child, classes[:level], values, {**case, "level": level})
         # using the child must not have touched any ancestor
         for anc_level in range(level):
             check_parent(ctx, parent_obs[anc_level]["obs"], sut, monitors, classes[anc_level],
